@@ -207,6 +207,23 @@ func c18WKT(c *fw.Ctx, idx int) {
 	t := g.BuildFlat()
 	var text string
 	var err error
+	if r.Chance(1, 150) {
+		// first a large geometry made of this case's own ordinates goes through the
+		// plain wkt.Marshal (thousands of ordinates: whatever an encoder keeps about
+		// numbers it has formatted, it has now seen these ones without a limit)
+		ords := flattenOrdinates(g)
+		if len(ords) >= 2 {
+			big := make([]float64, 0, 2*5000)
+			for len(big) < 2*([]int{2047, 2048, 2049, 4096, 5000}[r.Intn(5)]) {
+				big = append(big, ords[len(big)%len(ords)])
+			}
+			c.Guard("panic", func() {
+				wkt.Marshal(geom.NewLineStringFlat(geom.XY, big))
+				wkt.NewEncoder().Encode(geom.NewLineStringFlat(geom.XY, big))
+			})
+			c.Count("large_geometry_of_the_same_ordinates_encoded_without_a_limit_first")
+		}
+	}
 	if c.Guard("panic", func() { text, err = wkt.Marshal(t, wkt.EncodeOptionWithMaxDecimalDigits(d)) }) {
 		return
 	}
